@@ -1530,5 +1530,64 @@ seed("c06-bdat-limit-remaining-budget-off-by-one", "C06", "R-bdat-limit", "conn.
 """	if c.server.MaxMessageBytes != 0 && c.bytesReceived+int64(size) > c.server.MaxMessageBytes {""",
 """	if limit := c.server.MaxMessageBytes; limit != 0 && int64(size) >= limit-c.bytesReceived {""", "remaining-budget form with >=: the chunk that fills the budget exactly is refused")
 
+# ---- batch 35 (2026-09-28) ----
+for pid in ("C11", "C12", "C14"):
+    seed(pid.lower()+"-null-path-only-when-alone", pid, "R-parser-cursor", "parse.go",
+"""	if strings.HasPrefix(p.s, "<>") {
+		p.s = strings.TrimPrefix(p.s, "<>")""", """	if p.s == "<>" {
+		p.s = \"\"""", "MAIL FROM:<> with parameters is refused: the parameters of a bounce never reach the switch")
+seed("c14-null-path-trims-both-ends", "C14", "R-parser-cursor", "parse.go",
+"""		p.s = strings.TrimPrefix(p.s, "<>")""", """		p.s = strings.Trim(p.s, "<>")""", "the last parameter of a null-sender MAIL loses trailing '<'/'>'")
+seed("c20-accept-loop-shares-conn-variable", "C20", "R-go-fresh-captures", "server.go",
+"""	var tempDelay time.Duration // how long to sleep on accept failure
+
+	for {
+		c, err := l.Accept()""", """	var tempDelay time.Duration // how long to sleep on accept failure
+	var (
+		c   net.Conn
+		err error
+	)
+
+	for {
+		c, err = l.Accept()""", "one connection variable shared by all serving goroutines")
+for pid in ("C10", "C15"):
+    seed(pid.lower()+"-hello-failure-forgotten", pid, "R-chello-sticky", "client.go",
+"""		} else {
+			c.helloError = err
+		}
+	}
+	return c.helloError""", """		} else {
+			return err
+		}
+	}
+	return c.helloError""", "a refused EHLO (after STARTTLS) is reported once; later calls trust the plaintext capabilities")
+seed("c16-cmd-clears-read-deadline-only", "C16", "R-cdeadline-paired", "client.go",
+"""	c.conn.SetDeadline(time.Now().Add(c.CommandTimeout))
+	defer c.conn.SetDeadline(time.Time{})
+
+	id, err := c.text.Cmd(format, args...)""", """	c.conn.SetDeadline(time.Now().Add(c.CommandTimeout))
+	defer c.conn.SetReadDeadline(time.Time{})
+
+	id, err := c.text.Cmd(format, args...)""", "the write deadline of the DATA command is still armed while the body is written")
+seed("c09-client-empty-initial-response-dropped", "C09", "R-cauth-initial-empty", "client.go",
+"""	} else if resp != nil {
+		resp64 = []byte{'='}
+	}""", """	}""", "an empty initial response is not sent: the exchange gets an extra empty challenge")
+for pid in ("C18", "C16"):
+    seed(pid.lower()+"-lmtp-io-error-returns-first-verdict", pid, "R-lmtp-loop-complete", "client.go",
+"""				} else {
+					return err
+				}
+			} else if d.statusCb != nil {""", """				} else {
+					return firstErr
+				}
+			} else if d.statusCb != nil {""", "a failed read of a per-recipient reply is reported as success")
+seed("c04-limiter-counts-while-lifted", "C04", "R-linelimit-bypass-uncounted", "lengthlimit_reader.go",
+"""	if r.LineLimit == 0 {
+		return n, nil
+	}
+
+	for _, chr := range b[:n] {""", """	for _, chr := range b[:n] {""", "a binary chunk leaves a line count behind; the next command is refused as too long")
+
 json.dump(S, open(os.path.join(os.path.dirname(os.path.abspath(__file__)), "bank.json"), "w"), indent=1)
 print(len(S), "seeds")
